@@ -123,7 +123,7 @@ type certCase struct {
 func (c certCase) key() string { b, _ := json.Marshal(c); return "P " + string(b) }
 
 var (
-	certClasses  = []string{"issued", "issued", "ca-v2", "ca-v2", "ca-v1", "foreign-ca-v2", "bundle-root-v2", "self-signed-v2", "ca-v2-ecdsa-leaf", "ca-malformed-subject", "garbage-der", "ca-cert-itself", "ca-v2-hash-of-other-key", "ca-non-numeric-id"}
+	certClasses  = []string{"issued", "issued", "ca-v2", "ca-v2", "ca-v1", "foreign-ca-v2", "bundle-root-v2", "self-signed-v2", "ca-v2-ecdsa-leaf", "ca-malformed-subject", "garbage-der", "ca-cert-itself", "ca-v2-hash-of-other-key", "ca-non-numeric-id", "self-signed-v2-outside-validity", "foreign-ca-v2-outside-validity"}
 	proofClasses = []string{"own-key", "own-key", "own-key", "own-key-client", "other-key", "other-key", "other-key-client",
 		"bad:difficulty-17", "bad:expired", "bad:subject-of-other-key", "bad:signature", "bad:none", "bad:too-far"}
 )
@@ -404,6 +404,20 @@ func (e *pkiEnv) runCase(c certCase) (o certOutcome) {
 		tpl := &x509.Certificate{SerialNumber: big.NewInt(7), Subject: specpki.MakeSubjectV2(c.ID, hashPub[:]), NotBefore: time.Now().Add(-time.Minute), NotAfter: time.Now().AddDate(1, 0, 0),
 			ExtKeyUsage: []x509.ExtKeyUsage{x509.ExtKeyUsageClientAuth}, KeyUsage: x509.KeyUsageDigitalSignature | x509.KeyUsageCertSign, BasicConstraintsValid: true, IsCA: c.Variant%2 == 0}
 		der, _ = x509.CreateCertificate(crand.Reader, tpl, tpl, pub, priv)
+	case "self-signed-v2-outside-validity", "foreign-ca-v2-outside-validity":
+		// not issued by the client CA AND outside its validity window (run out, or not yet valid):
+		// whichever of the two a verifier notices first, it is not a certificate of this CA
+		nb, na := time.Now().AddDate(-2, 0, 0), time.Now().Add(-time.Duration(1+c.Variant)*time.Hour)
+		if c.Variant%3 == 2 {
+			nb, na = time.Now().Add(24*time.Hour), time.Now().AddDate(1, 0, 0)
+		}
+		tpl := &x509.Certificate{SerialNumber: big.NewInt(9), Subject: specpki.MakeSubjectV2(c.ID, hashPub[:]), NotBefore: nb, NotAfter: na,
+			ExtKeyUsage: []x509.ExtKeyUsage{x509.ExtKeyUsageClientAuth}, KeyUsage: x509.KeyUsageDigitalSignature, BasicConstraintsValid: true}
+		if c.Cert == "self-signed-v2-outside-validity" {
+			der, _ = x509.CreateCertificate(crand.Reader, tpl, tpl, pub, priv)
+		} else {
+			der, _ = x509.CreateCertificate(crand.Reader, tpl, e.foreign.x509, pub, e.foreign.cert.PrivateKey)
+		}
 	case "ca-v2-ecdsa-leaf":
 		ek, _ := ecdsa.GenerateKey(elliptic.P256(), crand.Reader)
 		der = e.ca.signLeaf(specpki.MakeSubjectV2(c.ID, hashPub[:]), &ek.PublicKey)
@@ -496,7 +510,7 @@ func (e *pkiEnv) runCase(c certCase) (o certOutcome) {
 	return
 }
 
-const c32Rule = "rapid-generated cases against a real pki.Server with a throw-away ed25519 client CA (an intermediate under a throw-away root, configured as a chained bundle): issue (valid proofs from the harness' own solver and from the repository's client, five kinds of bad proof) and renew over 13 certificate classes (issued through RequestCertificate, CA-signed v2 with generated ids and optional extra subject fields, CA-signed v1, foreign CA, a v2 certificate issued by the root of the configured CA bundle - the client CA is an intermediate and ClientCA.Certificate holds [client CA, root] -, self-signed, CA-signed ECDSA leaf, malformed / non-numeric subjects, damaged or truncated DER, the CA certificate itself, v2 subject naming another key) x proof classes (own key, another key, six bad proofs). Two thirds of the renew cases carry a valid proof so that a refusal must come from the certificate checks. Non-trivial: expected success with every post-condition checked, or a refusal with a valid proof of work (i.e. a refusal class other than bad PoW). Distinct = distinct case descriptor (key seeds, classes, id, variant)."
+const c32Rule = "rapid-generated cases against a real pki.Server with a throw-away ed25519 client CA (an intermediate under a throw-away root, configured as a chained bundle): issue (valid proofs from the harness' own solver and from the repository's client, five kinds of bad proof) and renew over 15 certificate classes (issued through RequestCertificate, CA-signed v2 with generated ids and optional extra subject fields, CA-signed v1, foreign CA, a v2 certificate issued by the root of the configured CA bundle - the client CA is an intermediate and ClientCA.Certificate holds [client CA, root] -, self-signed, self-signed or foreign-CA certificates outside their validity window (run out / not yet valid), CA-signed ECDSA leaf, malformed / non-numeric subjects, damaged or truncated DER, the CA certificate itself, v2 subject naming another key) x proof classes (own key, another key, six bad proofs). Two thirds of the renew cases carry a valid proof so that a refusal must come from the certificate checks. Non-trivial: expected success with every post-condition checked, or a refusal with a valid proof of work (i.e. a refusal class other than bad PoW). Distinct = distinct case descriptor (key seeds, classes, id, variant)."
 
 func TestC32(t *testing.T) {
 	rec := ev.New(t, "C32")
